@@ -20,7 +20,7 @@ RULE = ("universes (2-6 projects x 1-4 versions incl. pre/post/dev releases, req
         "distinct = distinct (universe, inputs, constraints, options).")
 TRUSTED_BASE = SP.TRUSTED_BASE
 ASSUMPTIONS = SP.ASSUMPTIONS
-LEVEL_TEXT = "Theorems for all graphs/universes on the Gallina solver model: the repository answer is offered, readable, correctly named and inside the request; the merged request is at least as strong as every current requirer's requirement; hence each solving step (walk-back states included) picks a version every current requirer accepts; soundness of the result checker run on every correspondence outcome. The former counter-example to the property's own reading (edge-reason overwrite loses a requested extra) is repaired in /repo (reasons of one edge are combined) and kept as a positive vm_compute witness; pins of several fully pinned constraint files are merged (theorem; defect repaired in /repo 8ac3bda). The global statement 'every final graph satisfies pins_ok' is checked on every case (checker proved sound) but not proved for all runs."
+LEVEL_TEXT = "Theorems for all graphs/universes on the Gallina solver model: the repository answer is offered, readable, correctly named and inside the request; the merged request is at least as strong as every current requirer's requirement; hence each solving step (walk-back states included) picks a version every current requirer accepts; soundness of the result checker run on every correspondence outcome. The former counter-example to the property's own reading (edge-reason overwrite loses a requested extra) is repaired in /repo (reasons of one edge are combined) and kept as a positive vm_compute witness; pins of several fully pinned constraint files are merged (theorem; defect repaired in /repo 8ac3bda). The property's sentence is a theorem for EVERY compile (C01_every_applicable_requirement_is_satisfied_all_compiles, PinsP: graph invariant, induction on the fuel, all constraint / option / walk-back cases): in the graph of a successful compile - and in the graph attached to a NoCandidate failure - every requirement line that applies now has a link to the required project and a solved target lies inside the line's specifier; hypotheses decidable (candidates carry the name they are listed under, PEP 508 names, inputs are requirement files) and the input hypothesis is shown necessary by a witness that replays on /repo (known finding: a project input ignores requirement-file lines on it). 'Offered by a configured repository' is per answer (SolverP). Partial because the form reading the reason stored on a link is refuted (stale, harmless) and the model is tied to /repo by differential correspondence, not by translation of compile.py."
 LEVEL_NOTE = ("Trusted: Coq kernel, extraction, OCaml drivers, T1/T2 harness, packaging semantics (validated by the C17 grid), the "
               "measured set-iteration and marker oracles. Modelled, not verified: compile.py, dists.py, versions.py, containers.py.")
 TECHNIQUE = "Rocq theorems on a Gallina model of the solver + vm_compute refutation witnesses + extraction-based whole-compile differential correspondence"
